@@ -14,7 +14,6 @@ KERNELS = [
     {"name": "mju_muscleBias", "file": MISC},
     {"name": "mju_muscleDynamicsTimescale", "file": MISC},
     {"name": "mju_muscleDynamics", "file": MISC},
-    {"name": "wrapSetpoint", "file": FWD, "static": True},
-    {"name": "slewLimit", "file": FWD, "static": True},
+    # wrapSetpoint / slewLimit (engine_forward.c, static) are refused by c2lean: mju_round casts double -> int
 ]
 INLINE_FILES = [MISC, FWD]
